@@ -101,6 +101,18 @@ def npFlatnonzeroLt [LT K] [DecidableLT K] (v : List K) (r : K) : List Nat :=
   (v.zipIdx.filter fun x => decide (x.1 < r)).map (·.2)
 end tree
 
+/-! ### a hit list filtered by the parent weights (not used by the pinned source; carried so that such a rewrite changes
+the generated text instead of stopping the translator — round 6) -/
+section weightfilter
+variable {K : Type} [NatCast K] [LT K] [DecidableLT K]
+
+/-- `indices[self._weights[indices] != 0]`: the hits whose parent weight is different from zero. -/
+def npIdxNonzeroWeight (w : List K) (idx : List Nat) : List Nat :=
+  idx.filter fun i => match w[i]? with
+    | some x => decide (x < ((0 : Nat) : K)) || decide (((0 : Nat) : K) < x)
+    | none => false
+end weightfilter
+
 /-! ### sequencing of expressions that may raise (the generated code binds their value with these) -/
 
 /-- Value of an expression that may fail in one way (`none`): `onNone` is what the function
@@ -204,6 +216,23 @@ variable [Elem K]
 def npAbsFlat (a : List (Point K)) : List K := a.flatten.map Elem.abs
 /-- `np.linalg.norm(recivecs, axis=1)`. -/
 def npNormRows (a : List (Point K)) : List K := a.map norm
+
+/-- `np.cross(u, v)` for two 3-vectors. -/
+def cross3 (u v : Point K) : Point K :=
+  match u, v with
+  | [u0, u1, u2], [v0, v1, v2] => [u1 * v2 - u2 * v1, u2 * v0 - u0 * v2, u0 * v1 - u1 * v0]
+  | _, _ => []
+
+/-- `crosses / volume` with `crosses = np.cross(realvecs[[1, 2, 0]], realvecs[[2, 0, 1]])` and
+`volume = np.dot(realvecs[0], crosses[0])` (`absVol`: its absolute value) — reciprocal vectors of a 3 × 3 cell without an
+SVD.  Not used by the pinned source; carried so that such a rewrite changes the generated text (round 6). -/
+def npCrossReci (absVol : Bool) (a : List (Point K)) : List (Point K) :=
+  match a with
+  | [a0, a1, a2] =>
+    let v0 := dot a0 (cross3 a1 a2)
+    let v := if absVol then Elem.abs v0 else v0
+    [cross3 a1 a2, cross3 a2 a0, cross3 a0 a1].map fun c => c.map fun x => x / v
+  | _ => a
 end vec
 
 section minmax
